@@ -704,6 +704,10 @@ async def client_async(case, out, loop):
             first = True
             while j < len(reply_bytes) and not tc.is_closing():
                 n = frag.next(len(reply_bytes) - j)
+                if j > hdr_len + 64:
+                    # body region: at most ~1500 fragments per reply (the client may re-scan its buffer per fragment; that
+                    # is CPU time the virtual clock does not see); the header region keeps its fine-grained splitting
+                    n = min(len(reply_bytes) - j, max(n, len(reply_bytes) // 1500))
                 if first and split_k is not None and 0 < hdr_len + split_k <= len(reply_bytes):
                     n = hdr_len + split_k
                 first = False
@@ -742,10 +746,10 @@ async def client_async(case, out, loop):
             tc.feed(reply)
             await quiesce(loop)
             reply = b''
-        if hdr_len > 20000 or (hdr_len <= 0 and len(reply) > 20000):
+        if hdr_len > 1500 or (hdr_len <= 0 and len(reply) > 1500):
             # the client re-scans its whole buffer on every fragment while no header is complete (quadratic); with a
             # 100 kB header and 1-byte fragments that is only CPU time, which the virtual clock does not measure
-            frag = Frag([16384])
+            frag = Frag([max(512, len(reply) // 12)])
             out.label("frag_capped_for_huge_header")
         srv = asyncio.ensure_future(serve(tc, reply, close_after, frag, case["split_k"], hdr_len))
         t0 = loop.time()
